@@ -1362,6 +1362,10 @@ class Sym:
             return r
         # 2. local functions: inline
         tgt = self.fx.by_dp.get(f.get("resolved_dp")) or self.fx.by_dp.get(f.get("dp"))
+        if (not tgt or tgt not in self.fx.bodies) and f.get("trait") and f.get("targs") and self.tsubst:
+            # a method of a crate trait called on a type parameter of the generic helper being inlined (`remapper.original_class(..)`
+            # with R = ProguardMapper at this call site): the impl for the concrete type is the callee
+            tgt = self.resolve_impl(f["trait"], path.split("::")[-1], self.subst_ty(f["targs"][0])) or tgt
         if tgt and tgt in self.fx.bodies:
             b = self.fx.bodies[tgt]
             mut_ok = not mut_idx or (self.inline_mut and not b.get("impl_trait") and all(vals[i][0] in ("place", "pl") for i in mut_idx)
@@ -1451,6 +1455,17 @@ class Sym:
             if pl is not None:
                 s = self.write_place(s, pl, ("after", t, i))
         return [(s, (VAL, t))]
+
+    def resolve_impl(self, trait, method, self_ty):
+        def norm(t):
+            t = re.sub(r"^&('\w+ )?(mut )?", "", (t or "").strip())
+            t = re.sub(r"<.*$", "", t)
+            return t.split("::")[-1]
+        if not self_ty or len(norm(self_ty)) <= 2:       # still a bare type parameter (`R`)
+            return None
+        hits = [p_ for p_, b_ in self.fx.bodies.items() if b_.get("impl_trait") == trait and b_.get("name") == method
+                and norm(b_.get("impl_self")) == norm(self_ty) and b_["krate"] in self.krates]
+        return hits[0] if len(hits) == 1 else None
 
     def sink_leaf(self, b):
         """a helper with a generic `&mut W` sink parameter that only talks to std (`write_aligned`): kept opaque, rules summarise
